@@ -37,7 +37,7 @@ CHECKS.update(
 )
 
 CHECKS.update(
-    C19=dict(text="Symbolic execution of the real deriv_check / DerivError / Solver._deriv_check over arbitrary function values at x and x+eps*e_i and arbitrary derivative entries (dense gradient, sparse COO/CSR/CSC Jacobian/Hessian, m,n<=2; thorough <=3): pass => all entries within the checker's tolerance; all within deriv_tol => pass; DerivError names exactly the wrong rows of the first wrong column; the three differenced function/derivative pairs of Solver._deriv_check; a K=2 solve (L1 oracle) with the check enabled starts from the unchanged point.", note="Exact reals (finite differences exact; cancellation outside); 'correct derivative' := |d-fd| <= deriv_tol (Taylor bound assumed, not re-proved); checker's tolerance := atol + 1e-5|fd| (numpy.allclose).", ref="DESIGN.md §6 C19"),
+    C19=dict(text="Symbolic execution of the real deriv_check / DerivError / Solver._deriv_check over arbitrary function values at x and x+eps*e_i and arbitrary derivative entries (dense gradient, sparse COO/CSR/CSC Jacobian/Hessian, m,n<=2; thorough <=3): pass => all entries within the checker's tolerance; all within deriv_tol => pass; DerivError names exactly the wrong rows of the first wrong column; the three differenced function/derivative pairs of Solver._deriv_check, unscaled and under custom power-of-two scalings (oracle: the reference-scaled functions, the user's Hessian requested at the un-scaled multiplier); a K=2 solve (L1 oracle) with the check enabled starts from the unchanged point.", note="Exact reals (finite differences exact; cancellation outside); 'correct derivative' := |d-fd| <= deriv_tol (Taylor bound assumed, not re-proved); checker's tolerance := atol + 1e-5|fd| (numpy.allclose).", ref="DESIGN.md §6 C19"),
 )
 
 CHECKS.update(
